@@ -73,7 +73,7 @@ func generatedFuncs(c *pipeline.Case) map[string]map[string]string {
 
 func checkC12(r *Run) {
 	type mk = func() *descgen.Entry
-	files := []mk{descgen.K7, descgen.K9, func() *descgen.Entry { return descgen.K10(false) }, func() *descgen.Entry { return noClash(descgen.K10(true)) }, descgen.K5, descgen.K1}
+	files := []mk{descgen.K7, descgen.K9, func() *descgen.Entry { return descgen.K10(false) }, func() *descgen.Entry { return noClash(descgen.K10(true)) }, descgen.K5, descgen.K15, descgen.K1}
 	nr := r.pick(3, 54)
 	for i := 0; i < nr; i++ {
 		i := i
